@@ -812,6 +812,54 @@ def gen_file_case(rng, tier):
     return prob, cfg
 
 
+def aimed_gene_list_problem(rng, n_leaves=None):
+    """two sibling clusters identical on every listed gene (no listed gene
+    passes p_th, so the relaxation pass of score_differential_genes is entered
+    with an EMPTY valid set) while 1-3 unlisted genes separate them strongly.
+    Aimed at: the gene list must also hold in the relaxed pass."""
+    th = ru.random_thresholds(rng)
+    prob = ru.StatsProblem(rng, th=th,
+                           n_leaves=n_leaves or rng.choice([2, 3, 4]),
+                           n_genes=rng.choice([5, 8, 12]), two_level=False)
+    G = len(prob.genes)
+    a, b = sorted(prob.leaves)[:2]
+    for l in (a, b):
+        if prob.n[l] < 4:
+            prob.n[l] = rng.choice([4, 6, 8])
+    idx = list(range(G))
+    rng.shuffle(idx)
+    n_sep = rng.randint(1, min(3, G - 1))
+    sep = idx[:n_sep]                       # unlisted, strongly separating
+    listed = idx[n_sep:n_sep + max(1, (G - n_sep) // 2)]
+    # every gene: identical statistics in a and b ...
+    for g in range(G):
+        prob.mean[b][g] = prob.mean[a][g]
+        prob.var[a][g] = prob.var[b][g] = 0.01
+        frac = rng.choice([0.0, 0.5, 1.0])
+        prob.ge1[a][g] = int(round(frac * prob.n[a]))
+        prob.ge1[b][g] = int(round(frac * prob.n[b]))
+    # ... except the separating ones
+    for g in sep:
+        hi, lo = (a, b) if rng.random() < 0.5 else (b, a)
+        prob.mean[hi][g] = 6.0 + rng.choice([0.0, 0.5, 1.0])
+        prob.mean[lo][g] = 0.0
+        prob.ge1[hi][g] = prob.n[hi]
+        prob.ge1[lo][g] = 0
+    gene_list = [prob.genes[g] for g in listed]
+    if rng.random() < 0.5:
+        gene_list.append('not_a_gene_0')
+    rng.shuffle(gene_list)
+    return prob, gene_list, sorted(listed), sorted(sep)
+
+
+def gen_aimed_gene_list_case(rng, exact):
+    prob, gene_list, _, _ = aimed_gene_list_problem(rng)
+    cfg = {'exact': exact, 'n_valid': rng.choice([1, 3, 5]),
+           'gene_list': gene_list, 'procs': rng.sample([1, 2, 3], 2),
+           'max_gb': [1, 0.5], 'n_per': [10000, 8]}
+    return prob, cfg
+
+
 def th_frac(th):
     return {k: fr(v) for k, v in th.items()}
 
@@ -1189,7 +1237,7 @@ def run_file_case(ctx, prob, cfg, label='gen'):
     th = prob.th
     pj = prob.to_json()
     detail0 = {'kind': 'file', 'problem': pj, 'cfg': cfg}
-    ctx.count('file:' + label)
+    ctx.count('file:' + label.split(':')[0])
     ctx.count('leaves:%d' % len(prob.leaves))
     with pipeline.workdir('c11_') as d:
         stats = prob.write(d / 'stats.h5')
@@ -1375,6 +1423,17 @@ def run(ctx):
     for _ in range(120 if quick else 1500):
         check_score_unit(ctx, rng)
     # ---- file layer --------------------------------------------------------
+    # aimed family (always part of quick): gene list vs the relaxation pass
+    for k in range(8 if quick else 40):
+        prob, _, listed, _ = aimed_gene_list_problem(rng, n_leaves=2)
+        check_score_unit(ctx, rng, {
+            'kind': 'score_unit', 'problem': prob.to_json(),
+            'exact': k % 4 == 3, 'n_valid': rng.choice([1, 3, 5, 30]),
+            'n_valid_min': rng.choice([10, 10, 1, 3]), 'n_cells_min': 2,
+            'gene_idx': listed})
+    for exact in ((False, False, True) if quick else (False, True) * 6):
+        prob, cfg = gen_aimed_gene_list_case(rng, exact)
+        run_file_case(ctx, prob, cfg, label='aimed-gene-list')
     n_files = 20 if quick else 300
     for k in range(n_files):
         prob, cfg = gen_file_case(rng, ctx.tier)
